@@ -499,6 +499,10 @@ Proof.
   replace (negb (t_type t <? 9)) with false by lia.
   rewrite (be_dec_enc 4 (Nlen (t_data t))) by (rewrite pow256_4; lia).
   rewrite (be_dec_enc 4 (Nlen (t_path t))) by (rewrite pow256_4; lia).
+  cbv zeta.
+  replace (size_tx t <? TRANSACTION_SIZE + (Nlen (t_from t) + Nlen (t_to t)) * SLIP_SIZE + Nlen (t_data t)
+           + Nlen (t_path t) * HOP_SIZE) with false
+    by (unfold size_tx, TRANSACTION_SIZE, SLIP_SIZE, HOP_SIZE; lia).
   match goal with HW : has_widths ?fs ?ws |- _ =>
     rewrite (dec_items_fields 309 SLIP_SIZE decode_slip encode_slip wf_slip fs ws 8%nat (t_from t)) by items_side HLn end.
   cbn [bind].
@@ -512,6 +516,9 @@ Proof.
   match goal with HW : has_widths ?fs ?ws |- _ =>
     rewrite (dec_items_fields 312 HOP_SIZE decode_hop encode_hop wf_hop fs ws 11%nat (t_path t)) by items_side HLn end.
   cbn [bind].
+  match goal with H : negb (t_type t =? TT_GOLDEN_TICKET) || (Nlen (t_data t) =? 97) = true |- _ =>
+    replace ((t_type t =? TT_GOLDEN_TICKET) && negb (Nlen (t_data t) =? 97)) with false
+      by (destruct (t_type t =? TT_GOLDEN_TICKET), (Nlen (t_data t) =? 97); cbn in *; congruence) end.
   rewrite !be_dec_enc by (rewrite ?pow256_8, ?pow256_4; lia).
   destruct t; reflexivity.
 Qed.
@@ -531,7 +538,10 @@ Proof.
   inv_bind H. inv_bind H. inv_bind H. inv_bind H. inv_bind H. inv_bind H.
   destruct (negb (x6 <? 9)) eqn:Ety; [discriminate|].
   cbv zeta in H. unfold TRANSACTION_SIZE, SLIP_SIZE, HOP_SIZE in *.
-  inv_bind H. inv_bind H. inv_bind H. inv_bind H. inversion H; subst t; clear H.
+  match type of H with context [Nlen bs <? ?e] => destruct (Nlen bs <? e) eqn:Edecl; [discriminate|] end.
+  inv_bind H. inv_bind H. inv_bind H. inv_bind H.
+  match type of H with (if ?c then _ else _) = _ => destruct c eqn:Egt; [discriminate|] end.
+  inversion H; subst t; clear H.
   pose proof (ix_ok_lt _ _ _ _ Hb E6) as Bty.
   apply (ix_ok_slice _ _ 93) in E6; [|reflexivity].
   rewrite sl_ok in *.
